@@ -210,6 +210,9 @@ class PE:
 
     # -- conditions: True / False / None (unknown)
     def truth(self, t: ast.AST, env: Dict[str, Any]) -> Optional[bool]:
+        sv = self.subst(t)
+        if sv is not None and sv[0] == "c":
+            return bool(sv[2])
         if isinstance(t, ast.BoolOp):
             vals = [self.truth(v, env) for v in t.values]
             if isinstance(t.op, ast.Or):
@@ -239,6 +242,8 @@ class PE:
                     return None
                 same = l == r and l[0] in ("undef", "null") or (l[0] == "c" and r[0] == "c" and l[2] is r[2])
                 return same if isinstance(op, ast.Is) else not same
+            if isinstance(op, (ast.Lt, ast.LtE, ast.Gt, ast.GtE)) and l[0] == "c" and r[0] == "c" and all(isinstance(x[2], (int, float)) and not isinstance(x[2], bool) for x in (l, r)):
+                return {ast.Lt: l[2] < r[2], ast.LtE: l[2] <= r[2], ast.Gt: l[2] > r[2], ast.GtE: l[2] >= r[2]}[type(op)]
             if isinstance(op, (ast.Eq, ast.NotEq)):
                 if l[0] == "c" and r[0] == "c":
                     return (l[2] == r[2]) if isinstance(op, ast.Eq) else (l[2] != r[2])
@@ -830,3 +835,58 @@ def rule_integer_argument_consulted(ctx, rep, rid: str, where: Callable[[Func], 
                 rep.bad(rid, key, f"{f.qual} converts a script argument into `{v}` (line {a0.lineno}) and returns through lines {[x.line for x in bad if x.line][-6:]} without ever reading it, while its other paths apply it: on that branch the call answers as if the argument had not been passed ('a,b'.split(undefined, 0) must be [] like every other split with limit 0)", f"{f.module.rel}:{a0.lineno}")
     if n < floor:
         raise AnalysisError(f"{rid}: only {n} integer argument locals examined (floor {floor})")
+
+
+# ---- built-ins whose result depends on HOW MANY arguments were passed ---------------------------------------
+# (family function, native, number of arguments, local, expected constant, where ECMAScript says so)
+ARG_COUNT_CASES = [
+    ("_make_array_method", "splice_fn", 0, "delete_count", 0, "Array.prototype.splice step 8: if start is not present, actualDeleteCount is 0"),
+]
+
+
+def rule_argument_count_cases(ctx, rep, rid: str) -> None:
+    """A few built-ins are specified by the NUMBER of arguments, not by their values: `a.splice()` removes nothing,
+    `a.splice(0)` everything.  For each listed case the native is folded with `args` of that length: the named local
+    must come out as the listed constant."""
+    rep.rule(rid, "for the built-ins that ECMAScript specifies by the number of arguments passed (listed with their step), folding the native with `args` of that length gives the listed value: splice() without arguments deletes nothing", floor=1)
+    n = 0
+    for fam, name, count, var, want, why in ARG_COUNT_CASES:
+        f = next((g for g in ctx.tree.funcs if g.name == name and g.parent is not None and g.parent.name == fam and not isinstance(g.node, ast.Lambda)), None)
+        if f is None:
+            raise AnalysisError(f"{rid}: native {fam}.{name} not found")
+        va = f.node.args.vararg.arg if f.node.args.vararg is not None else "args"
+
+        def subst(e: ast.AST, va=va, count=count):
+            if isinstance(e, ast.Name) and e.id == va and isinstance(getattr(e, "_parent", None), (ast.IfExp, ast.If, ast.BoolOp, ast.UnaryOp, ast.While)):
+                return _c(count > 0)
+            if isinstance(e, ast.Call) and norm(e.func) == "len" and len(e.args) == 1 and norm(e.args[0]) == va:
+                return _c(count)
+            if isinstance(e, ast.Compare):
+                p = _presence(e)
+                if p is not None and p[0] == va and p[1].lstrip("-").isdigit():
+                    present = count > int(p[1])
+                    return _c(present if p[2] else not present)
+            return None
+
+        pe = PE(ctx, f, subst)
+        env: Dict[str, Any] = {}
+        got = None
+        for st in f.node.body:
+            try:
+                pe.block([st], env)
+            except _Ret:
+                break
+            except _Giveup:
+                if var in env:
+                    break
+                continue
+            if var in env:
+                break  # the statement that decides the value from the arguments; later ones only clamp it
+        got = env.get(var)
+        n += 1
+        key = f"{f.qual}:{count}-arguments:{var}"
+        if got is not None and got[0] == "c" and got[2] == want and type(got[2]) is type(want):
+            rep.ok(rid, key, {"value": want, "because": why})
+        else:
+            rep.bad(rid, key, f"{f.qual} called with {count} argument(s) computes {var} = {_show(got)} where ECMAScript fixes it at {want} ({why}): `[1,2,3].splice()` must leave the array alone and return []", f.loc)
+    rep.ok(rid, "argument-count-cases", {"cases": n})
